@@ -50,11 +50,13 @@ DESIGN = {
     },
     "thorough": {
         "close": mkconsts({"l1": (W, 1), "l2": (W, 1), "r1": (R, 1), "r2": (R, 1), "l3": (CL, 1), "r3": (CL, 1)},
-                          "{0,2}", "{0,1,3}", "{1,99}", 4, DlKinds="{}", CloseKinds='{"nil","custom"}'),
+                          "{0,2}", "{0,1,3}", "{1,99}", 4, DlKinds="{}"),
+        "closeerr": mkconsts({"l1": (W, 1), "r1": (R, 2), "l3": (CL, 2), "r3": (CL, 2)},
+                             "{2}", "{1}", "{99}", 4, DlKinds="{}", CloseKinds='{"nil","custom"}'),
         "deadline": mkconsts({"l1": (W, 2), "r1": (R, 2), "l3": (SD, 2), "r3": (SD, 2)},
                              "{0,2}", "{0,1,3}", "{1,99}", 4),
         "duplex": mkconsts({"l1": ('{"Write","Read"}', 2), "r1": ('{"Write","Read","WriteTo"}', 2), "l3": (CTL, 1), "r3": (CTL, 1)},
-                           "{0,2}", "{0,1,3}", "{1,99}", 4),
+                           "{2}", "{1,3}", "{99}", 4),
     },
 }
 
@@ -67,7 +69,7 @@ REPLAY = {
         "atomic": (mkconsts({"l1": (W, 1), "l2": (W, 1), "r1": (RO, 2), "r2": (R, 1), "l3": (CL, 1)},
                             "{2}", "{1}", "{1}", 5, DlKinds="{}", EMIT="ACTION_CONSTRAINT EmitSeq"), "graph"),
         "mix": (mkconsts({"l1": (W, 2), "l2": (W, 2), "r1": (R, 2), "r2": (R, 2), "l3": (CTL, 2), "r3": (CTL, 2)},
-                         "{0,1,3}", "{0,1,3}", "{1,99}", 6, CloseKinds='{"nil","custom"}', EMIT="ACTION_CONSTRAINT EmitSeq"), ("sim", 260, 70)),
+                         "{0,1,3}", "{0,1,3}", "{1,99}", 6, CloseKinds='{"nil","custom"}', EMIT="ACTION_CONSTRAINT EmitSeq"), ("sim", 150, 60)),
     },
     "thorough": {
         "atomic": (mkconsts({"l1": (W, 1), "l2": (W, 1), "r1": (RO, 3), "r2": (R, 2), "l3": (CL, 1), "r3": (CL, 1)},
@@ -75,10 +77,10 @@ REPLAY = {
         "mix": (mkconsts({"l1": (W, 2), "l2": (W, 1), "r1": (R, 2), "r2": (RO, 1), "l3": (CTL, 1), "r3": (CTL, 1)},
                          "{0,2}", "{1,3}", "{1,99}", 4, EMIT="ACTION_CONSTRAINT EmitSeq"), "graph"),
         "deep": (mkconsts({"l1": (W, 3), "l2": (W, 3), "r1": (R, 3), "r2": (R, 3), "l3": (CTL, 3), "r3": (CTL, 3)},
-                          "{0,1,3}", "{0,1,3}", "{1,99}", 9, CloseKinds='{"nil","custom"}', EMIT="ACTION_CONSTRAINT EmitSeq"), ("sim", 2500, 110)),
+                          "{0,1,3}", "{0,1,3}", "{1,99}", 9, CloseKinds='{"nil","custom"}', EMIT="ACTION_CONSTRAINT EmitSeq"), ("sim", 700, 90)),
         "duplex": (mkconsts({"l1": ('{"Write","Read","WriteTo"}', 3), "l2": ('{"Write","Read"}', 3), "r1": ('{"Write","Read","WriteTo"}', 3),
                              "r2": ('{"Write","Read"}', 3), "l3": (CTL, 2), "r3": (CTL, 2)},
-                            "{0,2}", "{0,1,3}", "{1,99}", 8, EMIT="ACTION_CONSTRAINT EmitSeq"), ("sim", 2000, 100)),
+                            "{0,2}", "{0,1,3}", "{1,99}", 8, EMIT="ACTION_CONSTRAINT EmitSeq"), ("sim", 500, 90)),
     },
 }
 
@@ -139,21 +141,32 @@ def validate_all(v, traces, timeout, batch):
     def work(b):
         out = []
         rest = b
+        strict = True
+        ndrift = nviol = 0
         while rest:
-            ok, bad, evno, st = tlc_validate(rest, True, timeout)
+            ok, bad, evno, st = tlc_validate(rest, strict, timeout)
             states[0] += st[0]
             states[1] += st[1]
             if bad is None:
                 break
             tr = rest[bad]
-            # is the history outside what the property allows, or only outside the exact code model?
-            ok2, bad2, evno2, st2 = tlc_validate([tr], False, timeout)
-            out.append((tr, evno, bad2 is not None, evno2))
+            if strict:
+                # is the history outside what the property allows, or only outside the exact code model?
+                ok2, bad2, evno2, st2 = tlc_validate([tr], False, timeout)
+                beyond = bad2 is not None
+            else:
+                beyond, evno2 = True, evno
+            out.append((tr, evno, beyond, evno2))
+            nviol += beyond
+            ndrift += not beyond
             rest = rest[bad + 1:]
-            if len(out) >= 2 and rest:
+            if nviol >= 2 and rest:
                 # the verdict is settled; do not spend a TLC run per further rejected history
                 skipped[0] += len(rest)
                 break
+            if ndrift >= 3:
+                # the code has left the exact model without leaving the property: judge the rest by the relaxed model only
+                strict = False
         return out
 
     nproc = max(1, min(len(batches), int(os.environ.get("VERIF_MAX_WORKERS", "16"))))
@@ -164,7 +177,7 @@ def validate_all(v, traces, timeout, batch):
         v.notes.append("%d recorded histories were not validated after two rejections in their batch" % skipped[0])
     v.coverage["trace_validation_states"] = states[0]
     v.coverage["trace_validation_transitions"] = states[1]
-    return len(traces) - len(rejected) - skipped[0], rejected
+    return len(traces) - len([r for r in rejected if r[2]]) - skipped[0], rejected
 
 
 def report_rejected(v, rejected):
@@ -222,7 +235,7 @@ def run(tier, seed, replay):
     # (1) design, exhaustive -- runs in the background while the binding work proceeds
     def design(name):
         c = DESIGN[tier][name]
-        r = vlib.tlc(SPEC, "MCPipe", "MCPipe.cfg", c, workers=max(2, (maxw - 4) // len(DESIGN[tier])), timeout=3000 if big else 600,
+        r = vlib.tlc(SPEC, "MCPipe", "MCPipe.cfg", c, workers=max(2, (maxw - 2) // len(DESIGN[tier])), timeout=12000 if big else 3600,
                      edges=False, heap="12g" if big else "6g")
         return name, r
 
@@ -230,13 +243,20 @@ def run(tier, seed, replay):
     # C15_SKIP_DESIGN is for mutation experiments only (the design run does not depend on the code)
     design_futs = [pool.submit(design, n) for n in DESIGN[tier]] if not os.environ.get("C15_SKIP_DESIGN") else []
 
+    # (1b) thorough only: liveness under weak fairness of the internal steps (EventuallyReturns) on a small configuration
+    def live():
+        c = mkconsts({"l1": (W, 1), "l2": (W, 1), "r1": (R, 1), "l3": (CTL, 1), "r3": (CL, 1)}, "{2}", "{1}", "{99}", 4, DlKinds='{"past"}')
+        return vlib.tlc(SPEC, "MCPipe", "MCPipeLive.cfg", c, workers=2, timeout=6000, edges=False, heap="6g")
+
+    live_fut = pool.submit(live) if big and not os.environ.get("C15_SKIP_DESIGN") else None
+
     # (2) replay graphs (TLC runs in the background while the free-running stages execute)
     def graph_of(name):
         c, mode = REPLAY[tier][name]
         if mode == "graph":
-            g = vlib.tlc(SPEC, "MCPipe", "MCPipe.cfg", c, workers=4, timeout=1500, edges=True, heap="6g", edge_limit=3000000)
+            g = vlib.tlc(SPEC, "MCPipe", "MCPipe.cfg", c, workers=4, timeout=12000 if big else 3600, edges=True, heap="6g", edge_limit=3000000)
         else:
-            g = vlib.tlc(SPEC, "MCPipe", "MCPipe.cfg", c, workers=1, timeout=900 if big else 200, edges=True, heap="3g",
+            g = vlib.tlc(SPEC, "MCPipe", "MCPipe.cfg", c, workers=1, timeout=12000 if big else 3600, edges=True, heap="3g",
                          simulate="num=%d" % mode[1], depth=mode[2], seed=seed, edge_limit=1500000)
         return name, mode, g
 
@@ -246,9 +266,9 @@ def run(tier, seed, replay):
     traces = []
     # (3) free-running histories
     nproc = min(8, maxw)
-    per = (60 if big else 12)
+    per = (40 if big else 12)
     params = {"histories": per, "perEndMin": 2, "perEndMax": 4 if big else 3, "ops": 3 if big else 2, "maxWrite": 3}
-    outs = common.run_parallel(binary, "TestFree", [{"seed": seed * 1000 + i, "params": params, "tier": tier} for i in range(nproc)], 600)
+    outs = common.run_parallel(binary, "TestFree", [{"seed": seed * 1000 + i, "params": params, "tier": tier} for i in range(nproc)], 3600)
     nfree = 0
     for res, out, rc in outs:
         res = crash_or_absorb(v, res, out, rc, "free-running histories")
@@ -260,7 +280,7 @@ def run(tier, seed, replay):
 
     # (3b) race probes (direct oracles only): store-then-close windows, timer expiry against re-arm
     outs = common.run_parallel(binary, "TestRace", [{"seed": seed * 100 + i, "params": {"trials": 2000 if big else 300}, "tier": tier}
-                                                    for i in range(8 if big else 2)], 900)
+                                                    for i in range(8 if big else 2)], 3600)
     nrace = 0
     for res, out, rc in outs:
         res = crash_or_absorb(v, res, out, rc, "race probes", {"race": "any"})
@@ -275,15 +295,15 @@ def run(tier, seed, replay):
             raise vlib.Broken("replay graph %s violates %s" % (name, g.violation))
         graph = vlib.Graph(g)
         calls = lambda e: e[1].get("n") in ("Call", "Fire")
-        paths, left = graph.cover(seed=seed, max_len=mode[2] if mode != "graph" else 60, max_paths=(6000 if big else 400), prefer=calls)
-        walks = graph.random_walks(1500 if big else 100, mode[2] if mode != "graph" else 60, seed=seed)
+        paths, left = graph.cover(seed=seed, max_len=mode[2] if mode != "graph" else 60, max_paths=(2500 if big else 300), prefer=calls)
+        walks = graph.random_walks(400 if big else 60, mode[2] if mode != "graph" else 60, seed=seed)
         behs += [graph.behaviour(p) for p in paths + walks]
         v.coverage["replay_graphs"][name] = {"mode": mode, "distinct": g.distinct, "edges": len(graph.edges), "cover_paths": len(paths),
                                              "uncovered_edges": left, "random_walks": len(walks)}
     gpool.shutdown()
     vlib.log("[c15] %d behaviours to replay (%.0fs)" % (len(behs), time.time() - t0))
     outs = common.run_parallel(binary, "TestReplay", [{"behaviours": c, "seed": seed + i, "tier": tier}
-                                                      for i, c in enumerate(common.chunks(behs, min(16, maxw)))], 900)
+                                                      for i, c in enumerate(common.chunks(behs, min(16, maxw)))], 3600)
     nrep = steps = ndrift = 0
     distinct = 0
     for res, out, rc in outs:
@@ -303,10 +323,11 @@ def run(tier, seed, replay):
     # (4) TLC trace validation of every recorded history
     nb = max(1, min(maxw, 12))
     batch = max(1, (len(traces) + nb - 1) // nb)
-    validated, rejected = validate_all(v, traces, 2400 if big else 400, batch)
+    validated, rejected = validate_all(v, traces, 12000 if big else 3600, batch)
     report_rejected(v, rejected)
     v.coverage["traces_validated_against_impl"] = validated
-    v.coverage["traces_rejected"] = len(rejected)
+    v.coverage["traces_rejected"] = len([r for r in rejected if r[2]])
+    v.coverage["traces_explained_by_relaxed_model_only"] = len([r for r in rejected if not r[2]])
     if traces:
         v.sample({"recorded_history": [json.loads(x) for x in traces[len(traces) // 2][:40]]})
     vlib.log("[c15] trace validation done (%.0fs)" % (time.time() - t0))
@@ -330,6 +351,15 @@ def run(tier, seed, replay):
             if not res["violations"]:
                 raise vlib.Broken("TLC violates %s on the design (%s) but the real pipe does not reproduce it: the model is wrong: %s"
                                   % (r.violation, name, json.dumps([s.get("act") for s in vlib.trace_states(r.trace)])[:3000]))
+    if live_fut is not None:
+        r = live_fut.result()
+        v.coverage["design_liveness"] = {"property": "EventuallyReturns (WF of the internal steps)", "distinct": r.distinct,
+                                         "generated": r.generated, "violated": r.violation, "wall_s": round(r.wall, 1)}
+        if r.violation:
+            raise vlib.Broken("TLC violates %s on the fair design: the model has a call that never returns after both directions "
+                              "were shut down; the model is wrong or the pipe can deadlock (the drivers' watchdog did not see it)" % r.violation)
+        tot_d += r.distinct
+        tot_g += r.generated
     pool.shutdown()
     v.coverage["states"] = tot_d
     v.coverage["transitions"] = tot_g
@@ -349,7 +379,8 @@ def run_replay(v, binary, replay, seed):
     src = rp.get("src") or rp.get("replay") or rp.get("Replay")
     n = 0
     traces = []
-    if rp.get("trace"):
+    if rp.get("trace") and src is None:
+        # no way to re-execute: re-judge the recorded history itself
         traces.append(rp["trace"])
     if isinstance(src, list):        # a model behaviour: list of Call/Fire actions
         beh = {"steps": [{"a": a} for a in src]}
